@@ -33,10 +33,11 @@ type Profile struct {
 	LowerFields    bool // records with lower-case field names
 	Recursion      bool
 	StrCompare     bool
-	GenericFns     bool // unannotated generic helper functions
-	LetRhsInline   bool // the right-hand side of a let is always a one-line expression
-	RecGroups      bool // type A = {.. B ..} and B = ... groups with a forward reference
-	NoIf           bool // no if expressions (C02: not in the list of constructs with promised inference)
+	GenericFns     bool    // unannotated generic helper functions
+	LetRhsInline   bool    // the right-hand side of a let is always a one-line expression
+	ShadowProb     float64 // probability that a new binding shadows a visible outer name (0 = 0.08)
+	RecGroups      bool    // type A = {.. B ..} and B = ... groups with a forward reference
+	NoIf           bool    // no if expressions (C02: not in the list of constructs with promised inference)
 	NoMatch        bool
 	NoFieldAcc     bool
 	FuncParamApply bool // function-typed parameters of pure functions, applied once in the body
@@ -49,7 +50,7 @@ var ProfileC01 = Profile{Name: "c01", MulDiv: true, Lambdas: true, StrMatch: tru
 	UnionNoDef: true, FieldPerm: true, Partial: true, Pipes: true, HigherOrder: true, CompositeEq: true, UsField: true, SliceLib: true, StringsLib: true,
 	TopVars: true, Shadow: true, LowerFields: true, Recursion: true, StrCompare: true, GenericFns: true, RecGroups: true, MinFuncs: 3, MaxFuncs: 7, MaxDepth: 4}
 
-var ProfileTiny = Profile{Name: "tinyfo", Partial: true, Pipes: true, SliceLib: true, StringsLib: true, HigherOrder: true, CompositeEq: true, Shadow: true, FieldPerm: true, LetRhsInline: true, IfOnly: true, UnionNoDef: true, MinFuncs: 2, MaxFuncs: 5, MaxDepth: 3}
+var ProfileTiny = Profile{Name: "tinyfo", ShadowProb: 0.3, Partial: true, Pipes: true, SliceLib: true, StringsLib: true, HigherOrder: true, CompositeEq: true, Shadow: true, FieldPerm: true, LetRhsInline: true, IfOnly: true, UnionNoDef: true, MinFuncs: 2, MaxFuncs: 5, MaxDepth: 3}
 
 type vinfo struct {
 	name string
@@ -785,7 +786,11 @@ func typeOfVar(sc *scope, name string) *Type {
 
 // letName picks a fresh name, or (rarely) shadows a local of an enclosing Go block.
 func (g *Gen) letName(sc *scope) string {
-	if g.P.Shadow && g.R.Chance(0.08) {
+	sp := g.P.ShadowProb
+	if sp == 0 {
+		sp = 0.08
+	}
+	if g.P.Shadow && g.R.Chance(sp) {
 		var cands []string
 		for _, vi := range sc.visible(nil) {
 			if !sc.goNames[vi.name] {
@@ -922,6 +927,24 @@ func (g *Gen) matchU(t *Type, sc *scope, d int, fx bool) Expr {
 				arm.Bind = ""
 			default:
 				arm.Bind = g.letName(asc)
+				// a binder that shadows an outer variable of ANOTHER type (the outer one stays
+				// visible in the other arms): compilers that track types per name must scope it
+				asp := g.P.ShadowProb
+				if asp == 0 {
+					asp = 0.1
+				}
+				if g.P.Shadow && g.R.Chance(asp) {
+					var cands []string
+					for _, vi := range sc.visible(nil) {
+						if !vi.t.Eq(c.Payload) && vi.t.K != KFunc {
+							cands = append(cands, vi.name)
+						}
+					}
+					if len(cands) > 0 {
+						arm.Bind = core.Pick(g.R, cands)
+						g.feat("arm-binder-shadows-other-type")
+					}
+				}
 				used = asc.add(arm.Bind, c.Payload)
 			}
 		}
